@@ -36,6 +36,58 @@ def base_tree(n_new=2, n_cur=1, extra_dirs=('dst', 'dst2')):
     return t
 
 
+NOW = int(proc.PIN['VSHIM_TIME'])     # the clock mdsort sees (pinned by the shim)
+HOUR, DAY = 3600, 86400
+
+
+def clutter(md, now=NOW):
+    """What a maildir in use holds besides messages, with modification times around the ages a mail program may care about:
+    -> (tree entries, {rel: mtime ns}).  Remains of deliveries in tmp/ (old, just older / just younger than 36 hours, fresh, from the
+    future, a dot file, a sub-directory, a dangling link), dot files and empty files in new/ and cur/, files and directories in the
+    maildir itself (a note, the `maildirfolder` marker, a Maildir++ sub-folder with a message, another directory)."""
+    t, m = {}, {}
+
+    def put(rel, data, age):
+        t[md + '/' + rel] = data
+        m[md + '/' + rel] = (now - age) * 10**9 + 987654321
+
+    put('tmp/1700000000.1_1.oldhost', b'To: x\n\nremains of an interrupted delivery\n', 100 * DAY)
+    put('tmp/1789860000.77_2.host', b'half a mess', 37 * HOUR)
+    put('tmp/1789870000.78_3.host', b'To: y\n\nyounger than 36 hours\n', 35 * HOUR)
+    put('tmp/1789996400.79_4.host', b'', HOUR)
+    put('tmp/1790086400.80_5.host', b'written by a host whose clock is ahead\n', -DAY)
+    put('tmp/.lock', b'', 50 * DAY)
+    put('tmp/sub/leftover', b'x\n', 60 * DAY)
+    put('tmp/dangling', ('symlink', '../cur/nothing-here'), 70 * DAY)
+    put('new/.hidden', b'To: dot\n\ndot file in new\n', 40 * DAY)
+    put('cur/.nfs0000000000a1b2c3', b'', 45 * DAY)
+    put('new/0.empty', b'', 80 * DAY)
+    put('cur/0.empty:2,S', b'', 90 * DAY)
+    put('notes.txt', b'not a message\n', 30 * DAY)
+    put('maildirfolder', b'', 400 * DAY)
+    put('.Sub/cur/5.sub:2,S', b'To: sub\nX-Id: 55\n\nmessage of a sub-folder\n', 20 * DAY)
+    put('extra/deep/file', b'y\n', 10 * DAY)
+    for d in ('.Sub/new', '.Sub/tmp'):
+        t[md + '/' + d] = None
+    # the directories themselves are old too (a change of their modification time is a change of the maildir)
+    for k, d in enumerate(('', 'new', 'cur', 'tmp', 'tmp/sub', '.Sub', '.Sub/new', '.Sub/cur', '.Sub/tmp', 'extra', 'extra/deep')):
+        m[(md + '/' + d).rstrip('/')] = (now - (5 + k) * DAY) * 10**9 + 111
+    return t, m
+
+
+def with_clutter(spec, name=None):
+    """The scenario `spec` with clutter() in every maildir of its tree."""
+    tree, mt = dict(spec.tree), {}
+    for rel, d in spec.tree.items():
+        if d is None and rel.endswith('/new'):
+            ct, cm = clutter(rel[:-4])
+            tree.update(ct)
+            mt.update(cm)
+    s = Spec(name or spec.name + '+clutter', spec.conf, spec.pats, tree=tree, devmap=spec.devmap, stdin=spec.stdin, args=spec.args,
+             kind=spec.kind, env=spec.env, stdin_file=spec.stdin_file, mtimes=mt)
+    return s
+
+
 MIME = (b'To: user9@example.com\nX-Id: 9\nSubject: with parts\nContent-Type: multipart/mixed; boundary="b"\n\n'
         b'--b\nContent-Type: text/plain\n\nhello part\n--b\nContent-Type: application/pdf\nContent-Transfer-Encoding: base64\n\naGVsbG8K\n--b--\n')
 B64 = b'To: user8@example.com\nX-Id: 8\nSubject: enc\nContent-Transfer-Encoding: base64\n\naGVsbG8gd29ybGQK\n'
@@ -44,14 +96,15 @@ B64 = b'To: user8@example.com\nX-Id: 8\nSubject: enc\nContent-Transfer-Encoding:
 class Spec:
     """A scenario description: name, config template, patterns, tree, options."""
 
-    def __init__(self, name, conf, pats=(), tree=None, devmap=(), stdin=None, args=(), kind='maildir', env=None, stdin_file=False):
+    def __init__(self, name, conf, pats=(), tree=None, devmap=(), stdin=None, args=(), kind='maildir', env=None, stdin_file=False, mtimes=None):
         self.name, self.conf, self.pats, self.tree, self.devmap = name, conf, list(pats), tree or base_tree(), tuple(devmap)
         self.stdin, self.args, self.kind, self.env, self.stdin_file = stdin, list(args), kind, env or {}, stdin_file
+        self.mtimes = mtimes
 
     def build(self, tools):
         conf = self.conf.replace('@HELPER@', tools.helper)
         return proc.Scenario(tools, conf, self.tree, stdin=self.stdin, args=self.args, devmap=self.devmap, env=self.env,
-                             stdin_file=self.stdin_file)
+                             stdin_file=self.stdin_file, mtimes=self.mtimes)
 
 
 def text_body(n, tag=b'body'):
